@@ -38,7 +38,8 @@ CMR_ERROR CMRregularityDecomposeSeriesParallel(CMR* cmr, DecompositionTask* task
       task->params->seriesParallel ? SIZE_MAX : 1, &numReductions, &reducedSubmatrix, &violatorSubmatrix, &separation,
       task->stats ? &task->stats->seriesParallel : NULL, remainingTime) );
 
-    assert(violatorSubmatrix || separation || (numReductions == dec->numRows + dec->numColumns));
+    assert(violatorSubmatrix || separation || (numReductions == dec->numRows + dec->numColumns)
+      || (numReductions == SIZE_MAX));
   }
   else
   {
@@ -133,6 +134,8 @@ CMR_ERROR CMRregularityDecomposeSeriesParallel(CMR* cmr, DecompositionTask* task
         separation->columnsFlags[CMRelementToColumnIndex(reductions[0].mate)] = CMR_SEPA_FIRST;
       }
 
+      if (dec->transpose == NULL)
+        CMR_CALL( CMRchrmatTranspose(cmr, dec->matrix, &dec->transpose) );
       CMR_CALL( CMRsepaFindBinaryRepresentatives(cmr, separation, dec->matrix, dec->transpose, NULL, NULL) );
       assert(separation->type == CMR_SEPA_TYPE_TWO);
     }
